@@ -194,6 +194,8 @@ func main() {
 			code = cmdCheck(os.Args[2:])
 		case "list":
 			code = cmdList()
+		case "replay":
+			code = cmdReplay(os.Args[2:])
 		default:
 			fmt.Println("unknown command")
 			code = 2
